@@ -321,7 +321,7 @@ Lemma Inv0_step : forall s m e s' o, Inv0 s m -> step0 depsort s e = (s', o) ->
   Inv0 s' (m_step deps m (e, o)).
 Proof.
   intros s m e s' o (Hok & Hp & Hs & Hnd & Hw) Hstep.
-  destruct e as [tx oc | tx | | | | oc | | | | tx | oc]; simpl in Hstep.
+  destruct e as [tx oc | tx | | | | oc | | | | tx | oc | ]; simpl in Hstep.
   - (* EBroadcast *)
     destruct (stopped s) eqn:Est.
     + inversion Hstep; subst; clear Hstep. simpl. rewrite Hs. simpl. rewrite Z.eqb_refl. simpl.
@@ -408,6 +408,7 @@ Proof.
     + unfold Inv0; simpl. fin.
   - inversion Hstep; subst; clear Hstep. simpl. unfold Inv0. fin.
   - inversion Hstep; subst; clear Hstep. simpl. unfold Inv0. fin.
+  - inversion Hstep; subst; clear Hstep. simpl. unfold Inv0. fin.
 Qed.
 
 (* ---------- the full step (split Broadcast requests) ---------- *)
@@ -458,7 +459,7 @@ Proof.
     destruct (handler_event e && negb (stopped s) && match hbusy s with Some _ => true | None => false end).
     - inversion Hg; subst. destruct e; exact HI.
     - eapply Inv_via0; eauto. }
-  destruct e as [tx oc | tx | | | | oc | | | | tx | oc]; try (apply (Hguard _ eq_refl); exact Hstep).
+  destruct e as [tx oc | tx | | | | oc | | | | tx | oc | ]; try (apply (Hguard _ eq_refl); exact Hstep).
   - (* EStop *)
     unfold step in Hstep. destruct (hbusy s) as [b|] eqn:Eb; [|eapply Inv_via0; eauto].
     destruct HI as [(Hok & Hp & Hs & Hnd & Hw) Hb]. rewrite Eb in Hb. simpl in Hstep.
@@ -543,7 +544,7 @@ Proof.
   assert (Hsame : forall p, accepts (e, o) tx = false -> confirms (e, o) tx = false ->
             (In tx p <-> accepts (e, o) tx = true \/ (In tx p /\ confirms (e, o) tx = false))).
   { intros p Ha Hc. rewrite Ha, Hc. split; [intros H; right; auto | intros [H|[H _]]; [discriminate | exact H]]. }
-  destruct e as [t oc | t | | | | oc | | | | t | oc]; simpl in Hstep; unfold trigger in Hstep.
+  destruct e as [t oc | t | | | | oc | | | | t | oc | ]; simpl in Hstep; unfold trigger in Hstep.
   - destruct (stopped s); [inversion Hstep; subst; apply Hsame; reflexivity|].
     destruct (accepted oc); inversion Hstep; subst; [|apply Hsame; reflexivity].
     unfold accepts, confirms; simpl. rewrite In_add. rewrite Z.eqb_eq. split.
@@ -571,6 +572,7 @@ Proof.
   - destruct (stopped s); inversion Hstep; subst; apply Hsame; reflexivity.
   - inversion Hstep; subst; apply Hsame; reflexivity.
   - inversion Hstep; subst; apply Hsame; reflexivity.
+  - inversion Hstep; subst; apply Hsame; reflexivity.
 Qed.
 
 Lemma step_cases : forall s e s' o, step depsort s e = (s', o) ->
@@ -594,7 +596,7 @@ Proof.
      (s' = s /\ o = ONone) \/ (step0 depsort s e = (s', o))).
   { destruct (handler_event e && negb (stopped s) && match hbusy s with Some _ => true | None => false end);
       intros H; [left; inversion H; auto | right; exact H]. }
-  destruct e as [tx oc | tx | | | | oc | | | | tx | oc];
+  destruct e as [tx oc | tx | | | | oc | | | | tx | oc | ];
     try (destruct (Hguard Hstep) as [H|H]; [left; exact H | right; left; exact H]).
   - unfold step in Hstep. destruct (hbusy s) as [b|] eqn:Eb; [|right; left; exact Hstep].
     destruct (stopped s) eqn:Est.
@@ -657,7 +659,7 @@ Lemma step0_running : forall s e s' o, step0 depsort s e = (s', o) -> wk s' <> W
    (good (snap s) (sent s) (todo_of (wk s)) -> good (snap s') (sent s') (todo_of (wk s')))).
 Proof.
   intros s e s' o Hstep Hrun.
-  destruct e as [t oc | t | | | | oc | | | | t | oc]; simpl in Hstep; unfold trigger in Hstep.
+  destruct e as [t oc | t | | | | oc | | | | t | oc | ]; simpl in Hstep; unfold trigger in Hstep.
   - destruct (stopped s); [|destruct (accepted oc)]; inversion Hstep; subst; simpl in *;
       right; repeat split; auto.
   - destruct (stopped s); inversion Hstep; subst; simpl in *; right; repeat split; auto.
@@ -691,6 +693,7 @@ Proof.
       destruct (stopped s); inversion Hstep; subst; simpl in *;
       try (exfalso; apply Hrun; reflexivity); kp.
   - right. destruct (stopped s); inversion Hstep; subst; simpl in *; repeat split; auto.
+  - inversion Hstep; subst; right; repeat split; auto.
   - inversion Hstep; subst; right; repeat split; auto.
   - inversion Hstep; subst; right; repeat split; auto.
 Qed.
@@ -742,7 +745,7 @@ Lemma sent_grows0 : forall s e s' tx, step0 depsort s e = (s', OSent tx) ->
   exists rest, wk s = WRun (tx :: rest) /\ wk s' = WCall tx rest.
 Proof.
   intros s e s' tx Hstep.
-  destruct e as [t oc | t | | | | oc | | | | t | oc]; simpl in Hstep; unfold trigger in Hstep.
+  destruct e as [t oc | t | | | | oc | | | | t | oc | ]; simpl in Hstep; unfold trigger in Hstep.
   - destruct (stopped s); [|destruct (accepted oc)]; inversion Hstep.
   - destruct (stopped s); inversion Hstep.
   - destruct (stopped s); [|destruct (wk s)]; inversion Hstep.
@@ -755,6 +758,7 @@ Proof.
   - destruct (wk s) as [|[|t rest]|t rest|t rest]; try (inversion Hstep; fail);
       destruct (stopped s); inversion Hstep.
   - destruct (stopped s); inversion Hstep.
+  - inversion Hstep.
   - inversion Hstep.
   - inversion Hstep.
 Qed.
@@ -801,7 +805,7 @@ Lemma stopped_monotone0 : forall s e, stopped s = true ->
 Proof.
   intros s e Hs. unfold wmeasure.
   destruct (wk s) as [|[|t rest]|t rest|t rest] eqn:Ew;
-    destruct e as [t' oc | t' | | | | oc | | | | t' | oc]; simpl; unfold trigger;
+    destruct e as [t' oc | t' | | | | oc | | | | t' | oc | ]; simpl; unfold trigger;
     rewrite ?Hs, ?Ew; simpl; rewrite ?Hs, ?Ew; simpl;
     try (destruct (is_confirmed oc); simpl; rewrite ?Hs, ?Ew; simpl);
     split; auto; lia.
@@ -870,7 +874,7 @@ Lemma step_eq0_stopped : forall s e, stopped s = true ->
   step depsort s e = step0 depsort s e.
 Proof.
   intros s e Hs H1 H2.
-  destruct e as [tx oc | tx | | | | oc | | | | tx | oc]; simpl; rewrite ?Hs; simpl; try reflexivity.
+  destruct e as [tx oc | tx | | | | oc | | | | tx | oc | ]; simpl; rewrite ?Hs; simpl; try reflexivity.
   - destruct (hbusy s); reflexivity.
   - exfalso. apply (H1 tx). reflexivity.
   - exfalso. apply (H2 oc). reflexivity.
@@ -923,7 +927,7 @@ Proof.
     destruct (stopped_monotone0 s e Hs) as [G1 G2]. split; [exact G1|].
     unfold tmeasure. destruct (step0 depsort s e) as [s' o] eqn:E. simpl in *.
     rewrite (step0_busy _ _ _ _ E). lia. }
-  destruct e as [tx oc | tx | | | | oc | | | | tx | oc]; try (apply H0; intros; discriminate).
+  destruct e as [tx oc | tx | | | | oc | | | | tx | oc | ]; try (apply H0; intros; discriminate).
   - simpl. rewrite Hs. simpl. split; [exact Hs | lia].
   - simpl. unfold tmeasure, wmeasure. destruct (hbusy s) eqn:Eb; simpl; rewrite ?Hs, ?Eb; simpl.
     + split; [first [reflexivity | exact Hs] | try rewrite Eb; lia].
@@ -1194,3 +1198,29 @@ Lemma nobody_asked_success : forall order ms tnum tden,
 Proof.
   intros. apply no_repliers_success. unfold collect. apply no_getdata_replies; [reflexivity | assumption].
 Qed.
+
+(* ---------- the block subscription is cancelled from outside ---------- *)
+
+Lemma sub_cancel_identity : forall ds s, step ds s ESubCancel = (s, ONone).
+Proof. intros. reflexivity. Qed.
+
+Lemma sub_cancel_monitor : forall deps m, m_step deps m (ESubCancel, ONone) = m.
+Proof. intros. reflexivity. Qed.
+
+(* a history with the event = the history without it: same final state, and
+   the same observation for every other operation *)
+Lemma sub_cancel_silent : forall ds evs1 evs2,
+  run ds (evs1 ++ ESubCancel :: evs2) = run ds (evs1 ++ evs2) /\
+  snd (run_from ds init (evs1 ++ ESubCancel :: evs2)) =
+    snd (run_from ds init evs1) ++ ONone :: snd (run_from ds (run ds evs1) evs2) /\
+  snd (run_from ds init (evs1 ++ evs2)) =
+    snd (run_from ds init evs1) ++ snd (run_from ds (run ds evs1) evs2).
+Proof.
+  intros ds evs1 evs2. unfold run. rewrite !run_from_app. simpl.
+  destruct (run_from ds (fst (run_from ds init evs1)) evs2) as [s2 os2]. simpl.
+  repeat split.
+Qed.
+
+Lemma sub_cancel_is_identity : forall (ds : nat -> list Z -> list Z) (deps : deps_t) s m,
+  step ds s ESubCancel = (s, ONone) /\ m_step deps m (ESubCancel, ONone) = m.
+Proof. intros. split; reflexivity. Qed.
